@@ -15,6 +15,7 @@ ContainerElement = (
     block.ListItem,
     block.Paragraph,  # Paragraphs contain inline elements
     block.Heading,  # Already handled, but include for completeness if structure changes
+    block.SetextHeading,  # Not a Heading subclass in Marko; rendered as an ATX heading
     inline.Emphasis,
     inline.StrongEmphasis,
     inline.Link,
@@ -30,6 +31,7 @@ ContainerElement = (
 InlineScope = (
     block.Paragraph,
     block.Heading,
+    block.SetextHeading,
     gfm_elements.TableCell,
 )
 
